@@ -368,7 +368,15 @@ void exhaustive_case(Rng& r, bool want_merge, int fmin, int fmax) {
   Scenario best; int best_f = -1;
   for (int iter = 0; iter < 60; ++iter) {
     Scenario sc = build(sh, len, Fam::allow_rt());
-    const int f = measure_flips<Fam>(sc);
+    int f;
+    try { f = measure_flips<Fam>(sc); }
+    catch (const std::exception& e) {
+      describe(std::string(Fam::name()) + " exhaustive " + sc.shape);
+      checked();
+      fail(std::string(Fam::name()) + "|exhaustive|" + (sc.has_merge ? "merge-tree" : (sc.has_rt ? "single-stream-serde-roundtrip" : "single-stream")) + "|exception-under-scripted-coin",
+           sc.shape + " all-zero outcome, what=" + e.what() + " program=" + program_text(sc));
+      return;
+    }
     if (f <= fmax && f > best_f) { best = sc; best_f = f; }
     if (f >= fmin && f <= fmax) break;
     if (f < fmin) len = len + std::max(1, len / 6); else len = len - std::max(1, len / 8);
@@ -444,7 +452,8 @@ std::unique_ptr<typename Fam::SK> feed(const Cell& c, const std::vector<float>& 
     for (float v : stream) s->update(v);
     return s;
   }
-  static const double cut[5] = {0.0, 0.4, 0.7, 0.9, 1.0};
+  static const double cut_default[5] = {0.0, 0.4, 0.7, 0.9, 1.0};
+  const double* cut = c.merge == 2 ? Fam::mixed_cuts() : cut_default;
   std::unique_ptr<SK> p[4];
   for (int i = 0; i < 4; ++i) {
     p[i].reset(new SK(Fam::make(c.merge == 2 ? Fam::mixed_cfg(c.cfg, i) : c.cfg)));
